@@ -116,6 +116,7 @@ fn axis_mult<const D: usize>(pts: &[[f64; D]]) -> usize {
 fn gen_points<const D: usize>(c: &mut Ctx) -> (Vec<[f64; D]>, &'static str) {
     let n = match c.rng.int(0, 9) {
         0 => c.rng.int(1, 5),
+        _ if c.tiny => c.rng.int(20, 110),
         1 if c.thorough => c.rng.int(2000, 20_000),
         _ => c.rng.log_range(5.0, 1500.0) as usize,
     };
